@@ -6,12 +6,26 @@ req = read_request()
 import xyzpy as xyz
 
 rnd = random.Random(int(os.environ.get("VERIF_SEED", "0")))
-FAIL = set()
+EXC = [RuntimeError]
+
+
+class _Fail(set):
+    """the settings that fail, kept in the environment: a copy of fn unpickled from the crop (by value) sees the same ones"""
+    def add(self, x):
+        os.environ["XYZ_FAIL"] = str(x)
+
+    def clear(self):
+        os.environ.pop("XYZ_FAIL", None)
+
+
+FAIL = _Fail()
 
 
 def fn(a):
-    if a in FAIL:
-        raise RuntimeError("boom")
+    import os
+    if os.environ.get("XYZ_FAIL") == str(a):
+        # whatever the function raises (also the StopIteration of a bare next()), the batch did not finish
+        raise {"RuntimeError": RuntimeError, "StopIteration": StopIteration, "KeyError": KeyError, "ZeroDivisionError": ZeroDivisionError}[os.environ.get("XYZ_EXC", "RuntimeError")]("boom")
     return 10 * a
 
 
@@ -69,12 +83,16 @@ def history(nsettings, mode, val, length):
                 elif op == "grow_fail":
                     bad = rnd.randrange(nsettings)
                     FAIL.add(bad)
+                    EXC[0] = rnd.choice([RuntimeError, StopIteration, KeyError, ZeroDivisionError])
+                    os.environ["XYZ_EXC"] = EXC[0].__name__
                     todo = [b for b in range(1, nb + 1) if b not in finished]
                     before = set(finished)
                     try:
                         crop.grow_missing()
+                        if batch_of[bad] in todo:
+                            return [f"the function raised {EXC[0].__name__} for a setting of batch {batch_of[bad]}, yet growing returned normally and the batch counts as finished"], hist + [op]
                         finished = set(range(1, nb + 1))
-                    except RuntimeError:
+                    except Exception:
                         # batches grown before the failing one did finish
                         for b in todo:
                             if b == batch_of[bad]:
